@@ -367,7 +367,10 @@ RINGRICH = ['C1CC1C1CC1', 'c1ccc(cc1)-c1ccccc1', 'C1CC2CC12',
             # surface atom twice) and through two metal atoms
             'C1C[Pt]1', '[Pt]1OCC1', 'C1C[Ru]1', 'CC1C[Pt]1', 'C1CC[Pt]1',
             '[Pt]1C=C1', 'O1C[Pt]1', 'C1[Pt][Pt]1', 'C1C[Pt][Pt]1',
-            'C1C[Pt]1C1C[Pt]1']
+            'C1C[Pt]1C1C[Pt]1',
+            # macrocycles: ring sizes of two digits
+            'C1CCCCCCCCC1', 'C1CCCCCCCCCCC1', 'C1CCCCCCCCCCCCCC1',
+            'O=C1CCCCCCCCCCC1', 'C1CCCCCCCCCC1C1CC1', 'C1CCCCCCCCCOC1']
 _RR = {}
 
 
